@@ -313,6 +313,10 @@ class ExprMixin:
             if kind == 'pktfields':
                 return Py('pktfields_m', base.py[1], attr)
             if kind == 'dynpayload':
+                hook = self.spec.callbacks.get('dynpayload_attr')
+                r = hook(self, base.py[1], attr) if hook is not None else None
+                if r is not None:
+                    return r
                 return Py('extobj', 'dynpayload_m', base.py[1], attr)
             if kind == 'extobj':
                 hook = self.spec.callbacks.get('extobj_attr')
@@ -330,6 +334,10 @@ class ExprMixin:
                 return Py('ext', base.py[1] + '.' + attr)
             if kind == 'anyattr':
                 return Py('anyattr', base.py[1], base.py[2] + '.' + attr)
+            if kind == 'global':
+                # attribute of a module-level object the engine cannot evaluate (e.g. an API object made by a library
+                # call): an external function named module.name.attr, modelled by the contracts or unsupported
+                return Py('ext', '%s.%s.%s' % (base.py[1], base.py[2], attr))
             raise Unsupported('attribute %s of %s' % (attr, kind))
         if isinstance(t, TOpt):
             if self.spec_mode:
@@ -345,7 +353,7 @@ class ExprMixin:
         if isinstance(t, TTuple) and attr in t.names:
             i = t.index_of(attr)
             return V(t.elems[i], t.get(i, base.z))
-        if isinstance(t, (TList, TSet, TDict)) or t in (TBytes, TStr):
+        if isinstance(t, (TList, TSet, TDict)) or t in (TBytes, TStr) or (t is TInt and attr == 'to_bytes'):
             return Py('boundbuiltin', base, attr)
         if isinstance(t, TAny):
             return Py('anyattr', base, attr)
